@@ -1,0 +1,116 @@
+//go:build verif
+
+// Contracts for package cache, checked by /verif/govc (comment-only file; compiled only
+// with the build tag "verif", which no build of the application uses).
+package cache
+
+// The eviction list is abstracted by the ghost model of container/list (see the prelude of
+// /verif/govc): lat(l, i) is the element at position i (0 = most recently used).
+
+//@ pure func entOf(e *list.Element) *Entry = astype(e.Value, *Entry)
+//@ pure func wfLRU(c *LRUCache) bool = wfLRUx(c) && len(c.items) <= c.capacity
+//@ pure func wfLRUx(c *LRUCache) bool = c.capacity >= 1 && c.items != nil && c.evictList != nil && wfList(c.evictList) && llen(c.evictList) == len(c.items) && (forall k string :: (k in c.items) ==> c.items[k] != nil && lof(c.items[k]) == c.evictList && !lstale(c.items[k]) && istype(c.items[k].Value, *Entry) && entOf(c.items[k]) != nil && allocated(entOf(c.items[k])) && entOf(c.items[k]).Key == k) && (forall i int :: 0 <= i && i < llen(c.evictList) ==> istype(lat(c.evictList, i).Value, *Entry) && entOf(lat(c.evictList, i)) != nil && (entOf(lat(c.evictList, i)).Key in c.items) && c.items[entOf(lat(c.evictList, i)).Key] == lat(c.evictList, i))
+//@ pure func lruKey(c *LRUCache) string = entOf(lat(c.evictList, llen(c.evictList) - 1)).Key
+
+// removeElement / evictOldest work on a cache whose size bound may be temporarily exceeded (wfLRUx).
+//@ func (*LRUCache).removeElement
+//@   requires wfLRUx(c) && element != nil && lof(element) == c.evictList
+//@   modifies c.items[*], ghost(llen), ghost(lat), ghost(lpos), ghost(lof)
+//@   ensures[C12.remove-wf] wfLRUx(c) && len(c.items) == old(len(c.items)) - 1 && lof(element) == nil
+//@   ensures[C12.remove-key] !(old(entOf(element).Key) in c.items)
+//@   ensures[C12.remove-others] forall k string :: k != old(entOf(element).Key) ==> ((k in c.items) <==> old(k in c.items)) && c.items[k] == old(c.items[k])
+//@   ensures[C12.remove-order-before] forall i int :: 0 <= i && i < old(lpos(element)) ==> lat(c.evictList, i) == old(lat(c.evictList, i))
+//@   ensures[C12.remove-order-after] forall i int :: old(lpos(element)) <= i && i < llen(c.evictList) ==> lat(c.evictList, i) == old(lat(c.evictList, i + 1))
+
+//@ func (*LRUCache).evictOldest
+//@   requires wfLRUx(c)
+//@   modifies c.*, c.items[*], ghost(llen), ghost(lat), ghost(lpos), ghost(lof)
+//@   ensures[C12.evict-wf] wfLRUx(c) && c.capacity == old(c.capacity) && c.ttl == old(c.ttl) && c.hits == old(c.hits) && c.misses == old(c.misses) && c.items == old(c.items) && c.evictList == old(c.evictList)
+//@   ensures[C12.evict-empty] old(len(c.items)) == 0 ==> len(c.items) == 0 && c.evictions == old(c.evictions)
+//@   ensures[C12.evict-lru] old(len(c.items)) > 0 ==> len(c.items) == old(len(c.items)) - 1 && c.evictions == old(c.evictions) + 1 && !(old(lruKey(c)) in c.items)
+//@   ensures[C12.evict-others] forall k string :: old(len(c.items)) == 0 || k != old(lruKey(c)) ==> ((k in c.items) <==> old(k in c.items)) && c.items[k] == old(c.items[k])
+//@   ensures[C12.evict-order] forall i int :: 0 <= i && i < llen(c.evictList) ==> lat(c.evictList, i) == old(lat(c.evictList, i))
+
+//@ func NewLRUCache
+//@   ensures[C12.new-wf] result != nil && fresh(result) && wfLRU(result)
+//@   ensures[C12.new-capacity] result.capacity == (capacity > 0 ? capacity : 100) && result.ttl == ttl
+//@   ensures[C12.new-empty] len(result.items) == 0 && result.hits == 0 && result.misses == 0 && result.evictions == 0
+
+//@ func (*LRUCache).Size
+//@   requires wfLRU(c)
+//@   ensures[C12.size] result == len(c.items) && result <= c.capacity
+//@ func (*LRUCache).Capacity
+//@   ensures[C12.capacity] result == c.capacity
+
+//@ func (*LRUCache).Put
+//@   requires wfLRU(c)
+//@   modifies c.*, c.items[*], ghost(llen), ghost(lat), ghost(lpos), ghost(lof), heap(list.Element), heap(Entry)
+//@   ensures[C12.put-wf] wfLRU(c)
+//@   ensures[C12.put-stored] (key in c.items) && lat(c.evictList, 0) == c.items[key] && entOf(c.items[key]).Value == value
+//@   ensures[C12.put-size] len(c.items) == (old(key in c.items) ? old(len(c.items)) : min(old(len(c.items)) + 1, c.capacity))
+//@   ensures[C12.put-evicts-lru] !old(key in c.items) && old(len(c.items)) == c.capacity ==> !(old(lruKey(c)) in c.items) && c.evictions == old(c.evictions) + 1
+//@   ensures[C12.put-keeps-others] forall k string :: k != key && old(k in c.items) && !(!old(key in c.items) && old(len(c.items)) == c.capacity && k == old(lruKey(c))) ==> (k in c.items) && c.items[k] == old(c.items[k]) && entOf(c.items[k]).Value == old(entOf(c.items[k]).Value) && entOf(c.items[k]).CreatedAt == old(entOf(c.items[k]).CreatedAt)
+//@   ensures[C12.put-no-evict] old(key in c.items) || old(len(c.items)) < c.capacity ==> c.evictions == old(c.evictions)
+//@   ensures[C12.put-config] c.capacity == old(c.capacity) && c.ttl == old(c.ttl) && c.hits == old(c.hits) && c.misses == old(c.misses) && c.evictList == old(c.evictList) && c.items == old(c.items)
+//@   ensures[C12.put-update-keeps-age] old(key in c.items) ==> entOf(c.items[key]).CreatedAt == old(entOf(c.items[key]).CreatedAt)
+
+//@ func (*LRUCache).Get
+//@   requires wfLRU(c)
+//@   modifies c.*, c.items[*], ghost(llen), ghost(lat), ghost(lpos), ghost(lof), heap(Entry)
+//@   ensures[C12.get-wf] wfLRU(c)
+//@   ensures[C12.get-absent] !old(key in c.items) ==> result0 == nil && !result1 && c.misses == old(c.misses) + 1 && c.hits == old(c.hits) && len(c.items) == old(len(c.items))
+//@   ensures[C12.get-hit] result1 ==> old(key in c.items) && (key in c.items) && result0 == old(entOf(c.items[key]).Value) && c.hits == old(c.hits) + 1 && c.misses == old(c.misses) && lat(c.evictList, 0) == c.items[key] && len(c.items) == old(len(c.items))
+//@   ensures[C12.get-expired] !result1 && old(key in c.items) ==> c.ttl > 0 && !(key in c.items) && c.misses == old(c.misses) + 1 && len(c.items) == old(len(c.items)) - 1 && result0 == nil
+//@   ensures[C12.get-never-stale] old(key in c.items) && c.ttl > 0 && old(now()) - ns(old(entOf(c.items[key]).CreatedAt)) > c.ttl ==> !result1
+//@   ensures[C12.get-unlimited-life] old(key in c.items) && c.ttl <= 0 ==> result1
+//@   ensures[C12.get-others] forall k string :: k != key ==> ((k in c.items) <==> old(k in c.items)) && c.items[k] == old(c.items[k]) && entOf(c.items[k]).Value == old(entOf(c.items[k]).Value)
+//@   ensures[C12.get-config] c.capacity == old(c.capacity) && c.ttl == old(c.ttl) && c.evictions == old(c.evictions)
+
+//@ func (*LRUCache).Delete
+//@   requires wfLRU(c)
+//@   modifies c.items[*], ghost(llen), ghost(lat), ghost(lpos), ghost(lof)
+//@   ensures[C12.delete-wf] wfLRU(c)
+//@   ensures[C12.delete] result == old(key in c.items) && !(key in c.items) && len(c.items) == old(len(c.items)) - (result ? 1 : 0)
+//@   ensures[C12.delete-others] forall k string :: k != key ==> ((k in c.items) <==> old(k in c.items)) && c.items[k] == old(c.items[k])
+
+//@ func (*LRUCache).Clear
+//@   requires wfLRU(c)
+//@   modifies c.*, ghost(llen), ghost(lof), ghost(lstale)
+//@   ensures[C12.clear-wf] wfLRU(c)
+//@   ensures[C12.clear] len(c.items) == 0 && c.hits == 0 && c.misses == 0 && c.evictions == 0 && c.capacity == old(c.capacity) && c.ttl == old(c.ttl)
+
+//@ func (*LRUCache).Stats
+//@   requires wfLRU(c)
+//@   ensures[C12.stats] result.Hits == c.hits && result.Misses == c.misses && result.Evictions == c.evictions && result.Size == len(c.items) && result.Capacity == c.capacity
+//@   ensures[C12.stats-ratio] (c.hits + c.misses > 0 ==> result.HitRatio == real(c.hits) / real(c.hits + c.misses)) && (c.hits + c.misses <= 0 ==> result.HitRatio == 0.0)
+
+//@ func (*LRUCache).Keys
+//@   requires wfLRU(c)
+//@   ensures[C12.keys] len(result) == len(c.items) && (forall a int :: 0 <= a && a < len(result) ==> (result[a] in c.items))
+//@ loop 1
+//@   invariant fresh(keys) && len(keys) == $n && (forall a int :: 0 <= a && a < len(keys) ==> (keys[a] in c.items))
+
+// CleanupExpired removes only expired entries (walking from the least recently used end) and
+// reports how many it removed; what it keeps is untouched.
+//@ func (*LRUCache).CleanupExpired
+//@   requires wfLRU(c)
+//@   modifies c.items[*], ghost(llen), ghost(lat), ghost(lpos), ghost(lof)
+//@   ensures[C12.sweep-wf] wfLRU(c)
+//@   ensures[C12.sweep-count] result == old(len(c.items)) - len(c.items) && result >= 0
+//@   ensures[C12.sweep-only-expired] forall k string :: old(k in c.items) && !(k in c.items) ==> c.ttl > 0 && now() - ns(old(entOf(c.items[k]).CreatedAt)) > c.ttl
+//@   ensures[C12.sweep-keeps] forall k string :: (k in c.items) ==> old(k in c.items) && c.items[k] == old(c.items[k])
+//@   ensures[C12.sweep-no-ttl] c.ttl <= 0 ==> result == 0 && len(c.items) == old(len(c.items))
+//@ loop 1
+//@   invariant wfLRU(c) && c.ttl > 0
+//@   invariant element == (llen(c.evictList) > 0 ? lat(c.evictList, llen(c.evictList) - 1) : nil)
+//@   invariant removed == old(len(c.items)) - len(c.items) && removed >= 0
+//@   invariant forall k string :: (k in c.items) ==> old(k in c.items) && c.items[k] == old(c.items[k])
+//@   invariant forall k string :: old(k in c.items) && !(k in c.items) ==> ns(now) - ns(old(entOf(c.items[k]).CreatedAt)) > c.ttl
+//@   invariant ns(now) == now()
+//@   decreases llen(c.evictList)
+
+// The shared result cache is built with the documented capacity and lifetime.
+//@ func NewSearchCache
+//@   ensures[C12.searchcache-new] result != nil && fresh(result) && result.enabled && result.cache != nil && wfLRU(result.cache) && result.cache.capacity == (capacity > 0 ? capacity : 100) && result.cache.ttl == ttl && len(result.cache.items) == 0
+//@ func NewManager
+//@   ensures[C12.manager-defaults] result != nil && result.enabled && result.searchCache != nil && result.searchCache.enabled && wfLRU(result.searchCache.cache) && result.searchCache.cache.capacity == 1000 && result.searchCache.cache.ttl == 300000000000
